@@ -58,6 +58,16 @@ pub fn ref_apply_edit(text: &[char], range: &Range, new_text: &str) -> Vec<char>
     out
 }
 
+/// Several lints can offer an action with the same title; the one that belongs to `l` is the one
+/// whose edit, applied the way a client does, gives what the suggestion gives on the lint's span
+/// (the edit's own range may be narrower than the diagnostic's: only the outcome is specified).
+fn edit_matches(chars: &[char], te: &tower_lsp::lsp_types::TextEdit, sg: &harper_core::linting::Suggestion, l: &Lint) -> bool {
+    let by_client = ref_apply_edit(chars, &te.range, &te.new_text);
+    let mut by_core = chars.to_vec();
+    sg.apply(l.span, &mut by_core);
+    by_client == by_core
+}
+
 fn part_a(tier: Tier, report: &mut Report) {
     let g = Gen::Strings {
         atoms: vec!["a".into(), "é".into(), "😀".into(), "\t".into(), "\n".into(), "\r\n".into(), "e\u{301}".into()],
@@ -261,7 +271,7 @@ fn part_b(tier: Tier, report: &mut Report) {
                             for sg in &l.suggestions {
                                 let title = sg.to_string();
                                 let edit = acts.iter().find_map(|a| match a {
-                                    CodeActionOrCommand::CodeAction(ca) if ca.title == title => ca.edit.as_ref().and_then(|w| w.changes.as_ref()).and_then(|m| m.values().next()).and_then(|v| v.first()).filter(|te| te.range == d.range).cloned(),
+                                    CodeActionOrCommand::CodeAction(ca) if ca.title == title => ca.edit.as_ref().and_then(|w| w.changes.as_ref()).and_then(|m| m.values().next()).and_then(|v| v.first()).filter(|te| edit_matches(&chars, te, sg, l)).cloned(),
                                     _ => None,
                                 });
                                 let Some(te) = edit else {
@@ -405,7 +415,7 @@ fn part_c(tier: Tier, report: &mut Report) {
                             for sg in &l.suggestions {
                                 let title = sg.to_string();
                                 let te = acts.iter().find_map(|x| match x {
-                                    CodeActionOrCommand::CodeAction(ca) if ca.title == title => ca.edit.as_ref().and_then(|w| w.changes.as_ref()).and_then(|m| m.values().next()).and_then(|v| v.first()).filter(|te| (te.range.start.line, te.range.start.character, te.range.end.line, te.range.end.character) == (a.0, a.1, b.0, b.1)).cloned(),
+                                    CodeActionOrCommand::CodeAction(ca) if ca.title == title => ca.edit.as_ref().and_then(|w| w.changes.as_ref()).and_then(|m| m.values().next()).and_then(|v| v.first()).filter(|te| edit_matches(&chars, te, sg, l)).cloned(),
                                     _ => None,
                                 });
                                 let Some(te) = te else {
